@@ -71,7 +71,7 @@ def baseline_drift(chk, events):
 
 
 def run(tier):
-    chk = vp.Check("C01", tier)
+    chk = vp.Check("C01", tier, level="translation_validation")
     wd = vp.workdir("c01")
     thorough = tier == "thorough"
     events = observe(chk, wd, thorough, ("unwrap", "nulltest", "conv", "expr"))
